@@ -4,7 +4,10 @@
 REPO="${1:-/repo}"
 T=$(mktemp -d /tmp/vxall_XXXX)
 PIDS=$(python3 -c "import json;print(' '.join(sorted(json.load(open('/verif/units/config.json'))['properties'])))")
-printf '%s\n' $PIDS | xargs -P 4 -I{} sh -c "VERIF_REPO=$REPO VERIF_BUILD=$T/b_{} VERIF_EVIDENCE_DIR=$T/ev VERIF_REPLAYS=$T/rp /verif/check {} > $T/{}.out 2>&1; echo \"{} exit=\$? \$(tail -1 $T/{}.out)\""  | sort > $T/summary
+# on /repo itself the evidence files of /verif/evidence are rewritten (so that what gets committed is fresh);
+# on any other tree they go to the scratch directory
+if [ "$REPO" = "/repo" ]; then EV=/verif/evidence; else EV=$T/ev; fi
+printf '%s\n' $PIDS | xargs -P 4 -I{} sh -c "VERIF_REPO=$REPO VERIF_BUILD=$T/b_{} VERIF_EVIDENCE_DIR=$EV VERIF_REPLAYS=$T/rp /verif/check {} > $T/{}.out 2>&1; echo \"{} exit=\$? \$(tail -1 $T/{}.out)\""  | sort > $T/summary
 cat $T/summary
 BAD=$(grep -vc "exit=0" $T/summary)
 rm -rf "$T"
